@@ -104,7 +104,31 @@ def _install_clock():
     import time as _time
     _time.time = lambda: VIRTUAL_EPOCH + _VNOW[0] / 1000.0
     _time.time_ns = lambda: int((VIRTUAL_EPOCH + _VNOW[0] / 1000.0) * 1e9)
+    _time.sleep = _sim_sleep
+    # exclusive file creation (lock files, markers) and its removal are visible to the other processes: scheduling points too
+    _real_open, _real_remove = os.open, os.remove
+
+    def sim_os_open(path, flags, *a, **kw):
+        if flags & os.O_EXCL:
+            return _point("fs-excl-create", "os.open(O_EXCL) " + os.path.basename(os.fspath(path) if not isinstance(path, int) else str(path)),
+                          lambda: _real_open(path, flags, *a, **kw))
+        return _real_open(path, flags, *a, **kw)
+    os.open = sim_os_open
     _CLOCK_INSTALLED[0] = True
+
+
+def _sim_sleep(seconds):
+    """time.sleep() of the code under test (a retry / back-off loop): the process gives up the token and is runnable again
+    once the simulator's clock has advanced by that much.  Nothing in the unchanged tree sleeps."""
+    if _CH is None or _PASS[0]:
+        return None
+    ms = max(1, int(float(seconds) * 1000))
+    _send(_CH[1], ("sleep", ms))
+    tok = _recv(_CH[0])
+    if tok is None:
+        os._exit(9)
+    _VNOW[0] = tok[2]
+    return None
 
 _WS = re.compile(r"\s+")
 
@@ -462,7 +486,7 @@ def simulate(scripts, child_main, child_teardown, cfg, sched_rng=None, fault_rng
     scripts      list of per-process scripts (opaque to the engine)
     child_main   f(script, report) executed in the child; report(("ret"|"exc", ...)) is non-blocking
     cfg          dict: mode uniform|pct|coarse, pct_d, p_crash, p_stall, p_ioerr, restart(bool),
-                 linger(bool), max_steps, max_vms
+                 linger(bool), max_steps, max_vms, fault_horizon_steps (no fault is injected after that many steps)
     recorded     explicit decision list [[actor, fault|None], ...] (replay / shrinking)
     strict       replay must not diverge (HarnessError if it does)
     """
@@ -554,7 +578,7 @@ def simulate(scripts, child_main, child_teardown, cfg, sched_rng=None, fault_rng
                 if fault_rng is not None:
                     pc = cfg.get("p_crash", 0.0)
                     if pc:
-                        bias = 8.0 if p.last_kind in ("count-session", "insert-session", "create-session") else 1.0
+                        bias = 8.0 if p.last_kind in ("count-session", "insert-session", "create-session", "fs-excl-create") else 1.0
                         if fault_rng.random() < pc * bias and p.pending[0] != "start":
                             fault = ["crash"]
                     ps = cfg.get("p_stall", 0.0)
@@ -571,8 +595,12 @@ def simulate(scripts, child_main, child_teardown, cfg, sched_rng=None, fault_rng
                     if pi:
                         r2 = fault_rng.random()
                         which = fault_rng.random()
-                        if fault is None and r2 < pi and p.pending[0] not in ("start", "close", "rollback"):
+                        if fault is None and r2 < pi and p.pending[0] not in ("start", "close", "rollback", "sleep"):
                             fault = ["ioerr", "disk I/O error" if which < 0.5 else "database or disk is full"]
+            if fault is not None and recorded is None and res.steps >= cfg.get("fault_horizon_steps", 120):
+                # faults stop after the horizon (the draws above are still made, so the PRNG streams stay aligned):
+                # liveness is "every process finishes within the step / virtual-time caps once faults have stopped"
+                fault = None
             current = p
             res.decisions.append([p.idx, fault])
             res.steps += 1
@@ -626,6 +654,17 @@ def simulate(scripts, child_main, child_teardown, cfg, sched_rng=None, fault_rng
                         on_message(res, p, m)
                     continue
                 break
+            if tag == "sleep":
+                # the code under test sleeps (a retry loop of its own): runnable again after that much virtual time
+                p.last_kind = "sleep"
+                p.state = "sleeping"
+                p.wake = res.vclock + m[1]
+                p.pending = ("sleep", "", "")
+                if p.txn_open:
+                    p.clean_hold = False       # sleeping while holding the write lock
+                log.add(p.idx, "sleep", m[1])
+                res.probe("code-under-test-slept")
+                continue
             if tag == "busy":
                 # the statement was attempted and found the database locked: no effect
                 p.state = "sleeping"
